@@ -76,11 +76,25 @@ def prf_pattern(repo, res):
         if ok:
             v = rets[0].value
             # flux / 4 * (XF * YF)
-            ok = isinstance(v, ast.BinOp) and isinstance(v.op, ast.Mult) and nf(v.left) in (nf_text('flux / 4.0'), nf_text('flux / 4'))
-            if ok and isinstance(v.right, ast.BinOp) and isinstance(v.right.op, ast.Mult):
-                xf, yf = v.right.left, v.right.right
-            else:
-                ok = False
+            from ..expr import _flatten_mul
+            from ..axis import name_tag
+            fs = []
+            _flatten_mul(v, fs)
+            pre = [t for t in fs if nf(t) == nf_text('flux / 4')]
+            rest = [t for t in fs if nf(t) != nf_text('flux / 4')]
+            ok = len(fs) == 3 and len(pre) == 1 and len(rest) == 2
+
+            def axis_of(t):
+                tags = [name_tag(x.id) for x in ast.walk(t) if isinstance(x, ast.Name)]
+                return 'X' if tags.count('X') > tags.count('Y') else 'Y' if tags.count('Y') > tags.count('X') else None
+            if ok:
+                ax = [axis_of(t) for t in rest]
+                if ax == ['X', 'Y']:
+                    xf, yf = rest
+                elif ax == ['Y', 'X']:
+                    yf, xf = rest
+                else:
+                    xf, yf = rest
         res.oblige('PRF', f'{cn}.evaluate = flux/4 * (x erf difference) * (y erf difference)', ok, nontrivial=True)
         if not ok:
             res.add(Finding('PRF', f.fullname, 'pixel-integration pattern', f.loc,
